@@ -49,6 +49,19 @@ func (e UnsupportedGeometryError) Error() string {
 	return "wkb: unsupported type: " + e.Type.String()
 }
 
+// maxPrealloc is the largest number of elements that is allocated on the
+// strength of a count field alone. Count fields come from untrusted input,
+// so larger arrays are grown as their elements are actually read.
+const maxPrealloc = 1024
+
+// prealloc returns the initial capacity for an array said to have n elements.
+func prealloc(n uint32) int {
+	if n > maxPrealloc {
+		return maxPrealloc
+	}
+	return int(n)
+}
+
 type wkbReader func(io.Reader, binary.ByteOrder) (geom.Geom, error)
 
 var wkbReaders map[uint32]wkbReader
